@@ -4,6 +4,7 @@ Observation of the real compiler on generated (network, option) points, judged b
 specification (Spec/Outcome.lean). An escaping exception is a violation with the network as replay;
 known crashes are keyed by <ExceptionType>@<module>.<function> of the innermost repository frame."""
 import c13_corpus
+import c13_gen
 import common
 import pending
 import pipe_common
@@ -28,7 +29,8 @@ def main():
     outs = pipe_common.run_corpus(ck, n, profiles=profiles, want={"more_opts": True}, corpus_first=False)
     if not ck.replay_arg:
         # deterministic reproducers of every repaired crash first: a regression is a plain VIOLATION
-        outs = c13_corpus.run() + outs
+        # ... then the targeted families (operator neighbourhoods the general profiles rarely produce, see c13_gen.py)
+        outs = c13_corpus.run() + c13_gen.run(ck.seed, 3900 if ck.thorough else 390) + outs
     reqs = []
     for o in outs:
         if "harness_exception" in o:
@@ -62,6 +64,7 @@ def main():
                           "network": o.get("desc"), "status": o["status"], "exception": o.get("exc"), "site": site,
                           "traceback_tail": o.get("tb"), "stdout_tail": o.get("stdout_tail"),
                           "how_to_replay": ("c13_corpus.compile_one(profile[7:])" if o["profile"].startswith("c13reg:") else
+                                            "c13_gen.compile_one((seed, index))" if o["profile"].startswith("c13x:") else
                                             "pipe_common._worker((seed, index, profile, {'more_opts': True}))")},
                          key=site)
     for o, rq, v in list(zip(outs, reqs, verdicts))[:4]:
